@@ -71,7 +71,10 @@ def structured_cases(tier):
             out.append("enum R { %s A(u8), B }" % opts)
             out.append("enum R { %s A { x: u8 }, B }" % opts)
     # bodies
-    out += ["struct R { #[darling(flatten)] a: X, #[darling(flatten)] b: Y }", "struct R { #[darling(flatten)] a: X, b: Y, #[darling(flatten)] c: Z }",
+    out += ["enum R { V { #[darling(flatten)] a: X, #[darling(flatten)] b: Y }, W }", "enum R { V { #[darling(flatten)] a: X, c: u8 }, W { #[darling(flatten)] b: Y } }",
+            "enum R { #[darling(word)] A, #[darling(word = false)] B }", "#[darling(from_word = w)] enum R { #[darling(word = false)] A, B }",
+            "enum R { #[darling(skip, word)] A, B }",
+            "struct R { #[darling(flatten)] a: X, #[darling(flatten)] b: Y }", "struct R { #[darling(flatten)] a: X, b: Y, #[darling(flatten)] c: Z }",
             "enum R { #[darling(word)] A, #[darling(word)] B }", "enum R { #[darling(word = false)] A, #[darling(word = false)] B }",
             "#[darling(from_word = w)] enum R { #[darling(word)] A, B }", "struct R { attrs: Vec<syn::Attribute> }",
             "#[darling(forward_attrs)] struct R { attrs: Vec<syn::Attribute> }", "#[darling(forward_attrs(a))] struct R { #[darling(with = f)] attrs: X }",
